@@ -167,6 +167,8 @@ class Evaluator(Folder):
     def _assign(self, t: ast.AST, v: Any) -> None:
         if isinstance(t, ast.Name):
             self.env[t.id] = v
+            if t.id in self.__dict__.get("nonlocals", ()) and self.__dict__.get("outer_env") is not None:
+                self.outer_env[t.id] = v  # `nonlocal x` / `global x`: the binding of the defining frame is rebound
         elif isinstance(t, (ast.Tuple, ast.List)):
             vals = list(v)
             if len(vals) != len(t.elts):
@@ -330,6 +332,10 @@ class Evaluator(Folder):
                 from .fold import _LocalFn
 
                 self.env[st.name] = _LocalFn(st, self.env)
+        elif isinstance(st, (ast.Nonlocal, ast.Global)):
+            if self.__dict__.get("outer_env") is None:
+                raise Unfoldable("statement %s outside a local function" % type(st).__name__)
+            self.__dict__.setdefault("nonlocals", set()).update(st.names)
         elif isinstance(st, ast.ClassDef):
             self.env[st.name] = LocalClass(st, self)
         elif isinstance(st, ast.Delete):
@@ -1214,6 +1220,7 @@ class LocalInstance(Sym):
         repo, mod, kls, hook = cls.ctx
         # free variables are the defining function's (late binding): look-ups fall back to the shared environment
         ev = Evaluator(_Chain(env, cls.env), repo, mod, kls, hook)
+        ev.outer_env = cls.env  # type: ignore
         return ev.run(body_without_docstring_(node))
 
     def __getattr__(self, name: str) -> Any:
